@@ -1,5 +1,10 @@
 //! In-process property checks (one binary, one sub-command per property).
+mod c11;
+mod c12;
 mod c17;
+mod sess;
+mod stores;
+mod util;
 
 use vcommon::{Check, Settings};
 
@@ -12,6 +17,8 @@ fn main() {
     let settings = Settings::from_env_and_args(&prop, &args[2..]);
     let chk = Check::new(settings, "");
     match prop.as_str() {
+        "C11" => c11::main(chk),
+        "C12" => c12::main(chk),
         "C17" => c17::main(chk),
         _ => {
             eprintln!("rtprops: unknown property {prop}");
